@@ -58,6 +58,7 @@ def _builder(ctx):
     feats = {"cond": ch.coin(3, 4, "f-cond"), "loop": ch.coin(3, 4, "f-loop"), "cfg": ch.coin(3, 4, "f-cfg"),
              "calls": ch.coin(3, 4, "f-calls"), "poly": ch.coin(1, 2, "f-poly"), "meta": ch.coin(3, 4, "f-meta"),
              "insert": ch.coin(1, 3, "f-insert")}
+    feats["failed_inserts"] = feats["insert"] and ch.coin(1, 2, "f-failed-inserts")
     try:
         sim = BuilderSim(ctx, features=feats, max_steps=10 + ch.draw(40, "max-steps"))
         sim.run()
